@@ -15,6 +15,8 @@ EXTENDS CRL, TLC, Json, SequencesExt, FiniteSetsExt
 
 CONSTANTS MaxLen,      \* longest entry list
           USize,       \* how many serials of the universe are used (prefix)
+          MaxLenB,     \* a second (length, universe) pair enumerated in the same run,
+          USizeB,      \* e.g. shorter lists over the whole universe; 0, 0 = none
           Times,       \* set of revocation times
           LemmaLen,    \* lists up to this length are used for the cache lemma
           MaxExt,      \* longest list of non-number extensions
@@ -40,10 +42,7 @@ Universe == <<
   <<128>> \o Rep(0, 19)                \* -2^159
 >>
 
-U == 1..USize
-
-EntryVals == U \X Times
-Lists(n) == UNION {[1..k -> EntryVals] : k \in 0..n}
+ListsOver(u, n) == UNION {[1..k -> (1..u) \X Times] : k \in 0..n}
 
 Abs(l) == [i \in 1..Len(l) |-> [s |-> Universe[l[i][1]], t |-> l[i][2]]]
 
@@ -53,11 +52,12 @@ LookupCase(l, q) ==
       ca == CachedAllowed(e, Universe[q]) IN
   [e |-> l, q |-> q, rev |-> r.rev, t |-> r.t, ct |-> SetToSeq({x.t : x \in ca})]
 
-LookupCases == {LookupCase(l, q) : l \in Lists(MaxLen), q \in U}
+LookupCases == {LookupCase(l, q) : l \in ListsOver(USize, MaxLen), q \in 1..USize}
+               \cup {LookupCase(l, q) : l \in ListsOver(USizeB, MaxLenB), q \in 1..USizeB}
 
 \* the lemma that the usual overwrite cache satisfies clause (4) - checked over the
 \* lists up to LemmaLen
-LemmaHolds == \A l \in Lists(LemmaLen), q \in U : CacheLemma(Abs(l), Universe[q])
+LemmaHolds == \A l \in ListsOver(USize, LemmaLen), q \in 1..USize : CacheLemma(Abs(l), Universe[q])
 
 ----------------------------------------------------------------------------
 (* list-level cases *)
